@@ -45,6 +45,13 @@ func foldEq(a, b rune) bool {
 	return a == b || unicode.ToLower(a) == unicode.ToLower(b) || ref.SameFold(a, b)
 }
 
+// bytePrefixAt: the published prefix strings are built bytewise, so a common prefix of
+// alternation branches may end inside a multi-byte rune ("é\xc3" for éß|ééß); such a fact is
+// still true of the UTF-8 text, which is what the raw-string filter searches.
+func bytePrefixAt(text []rune, p int, pre string) bool {
+	return p >= 0 && p <= len(text) && strings.HasPrefix(string(text[p:]), pre)
+}
+
 func hasPrefixAt(text []rune, p int, pre []rune, ic bool) bool {
 	if p < 0 || p+len(pre) > len(text) {
 		return false
@@ -175,7 +182,7 @@ func (f *facts) check(text []rune, p, idx, length, origin int, seen func(string)
 				if !hasPrefixAt(text, p-len(pre), pre, ic) {
 					fail("LeadingPrefix=%q but the text before (right-to-left) match start %d does not end with it", fo.LeadingPrefix, p)
 				}
-			} else if !hasPrefixAt(text, p, pre, ic) {
+			} else if !hasPrefixAt(text, p, pre, ic) && !bytePrefixAt(text, p, fo.LeadingPrefix) {
 				fail("LeadingPrefix=%q (ignoreCase=%v) but the text at match start %d does not start with it", fo.LeadingPrefix, ic, p)
 			}
 		}
@@ -184,7 +191,7 @@ func (f *facts) check(text []rune, p, idx, length, origin int, seen func(string)
 			ic := fo.FindMode == syntax.LeadingStrings_OrdinalIgnoreCase_LeftToRight
 			ok := false
 			for _, s := range fo.LeadingPrefixes {
-				if hasPrefixAt(text, p, []rune(s), ic) {
+				if hasPrefixAt(text, p, []rune(s), ic) || bytePrefixAt(text, p, s) {
 					ok = true
 					break
 				}
